@@ -980,6 +980,11 @@ func (c *FnCtx) run() {
 		// captured variable x is visible in specs by name, as the pointee value at entry (via load at use)
 		_ = r
 	}
+	if c.spec.NoLiterals {
+		for _, af := range fn.AnonFuncs {
+			c.oblige("noliterals", af.Name(), tTrue, tFalse, "function literal "+af.Name()+" in a function whose contract allows none: what it hands on must be a named function or method")
+		}
+	}
 	// requires
 	reach0 := tTrue
 	env := c.envFor(st, st)
